@@ -89,6 +89,11 @@ func tailOf(path string, n int) []string {
 }
 
 func (s *Scen) inconclusive(f string, a ...interface{}) {
+	if s.Cl != nil && s.Cl.IsWedged() && !s.Dead {
+		// not a slow run: the controller stopped giving up its lock, so neither I/O nor management requests are served
+		s.Fail([]string{"C05", "C14", s.Prop}, "controller-wedged", "the controller's lock has been held for more than 45 s (ten rpc deadlines) - I/O and management requests hang; last events: "+strings.Join(tailStr(s.Cl.Events, 6), " | ")+"; then: "+fmt.Sprintf(f, a...))
+		return
+	}
 	s.Dead = true
 	if keep := os.Getenv("VERIF_DEV_KEEP"); keep != "" && s.Cl != nil {
 		os.MkdirAll(keep, 0755)
@@ -187,10 +192,11 @@ func (m *monitor) Stop() { close(m.stop); m.wg.Wait() }
 type writers struct {
 	stop chan struct{}
 	wg   sync.WaitGroup
+	cl   *Cluster
 }
 
 func startWriters(cl *Cluster, r *vk.Rand, n int, pause time.Duration) *writers {
-	w := &writers{stop: make(chan struct{})}
+	w := &writers{stop: make(chan struct{}), cl: cl}
 	blocks := cl.Size / 4096
 	for g := 0; g < n; g++ {
 		lo, hi := blocks*int64(g)/int64(n)*8, blocks*int64(g+1)/int64(n)*8
@@ -214,7 +220,21 @@ func startWriters(cl *Cluster, r *vk.Rand, n int, pause time.Duration) *writers 
 	return w
 }
 
-func (w *writers) Stop() { close(w.stop); w.wg.Wait() }
+// Stop ends the writers; a writer that does not come back from the controller within 60 s is left behind (the
+// controller is wedged: the scenario reports that, the worker process ends with the run).
+func (w *writers) Stop() {
+	close(w.stop)
+	done := make(chan struct{})
+	go func() { w.wg.Wait(); close(done) }()
+	select {
+	case <-done:
+	case <-time.After(60 * time.Second):
+		if w.cl != nil {
+			atomic.StoreInt32(&w.cl.Wedged, 1)
+			w.cl.event("a write did not return from the controller within 60 s")
+		}
+	}
+}
 
 // snapshotModel pauses the writers, snapshots the volume through the
 // controller and returns the model image at that point.
@@ -443,9 +463,12 @@ func RunRebuild(s *Scen, r *vk.Rand, a, b int, bin, base string, cycles int) {
 		cl.AlignedOnly = alignedRebuild
 		ws := startWriters(cl, r, nw, pause)
 		time.Sleep(time.Duration(r.Range(20, 300)) * time.Millisecond)
-		how := []string{"kill", "kill", "stop", "shortstop"}[r.Intn(4)]
+		how := []string{"kill", "kill", "stop", "shortstop", "idlestopkill"}[r.Intn(5)]
 		if s.Prop == "C10" && cyc == 0 {
 			how = "shortstop"
+		}
+		if s.Prop == "C05" && cyc == 0 && (s.Case/100)%2 == 1 {
+			how = "idlestopkill"
 		}
 		if how == "shortstop" {
 			// the replica stalls for 1.5x the rpc deadline and then carries on: the controller must have given up on it
@@ -486,6 +509,15 @@ func RunRebuild(s *Scen, r *vk.Rand, a, b int, bin, base string, cycles int) {
 		if how == "stop" {
 			syscall.Kill(x.cmd.Process.Pid, syscall.SIGSTOP)
 			cl.event("SIGSTOP replica %d", x.Idx)
+		} else if how == "idlestopkill" {
+			// an idle volume: the replica hangs long enough for a ping to be outstanding (pings go out every 2 s), then
+			// dies - the connection fails while the monitor is waiting for the ping's reply, not between two pings
+			ws.Stop()
+			time.Sleep(300 * time.Millisecond)
+			syscall.Kill(x.cmd.Process.Pid, syscall.SIGSTOP)
+			time.Sleep(time.Duration(r.Range(2300, 3800)) * time.Millisecond)
+			cl.Kill(x, false)
+			cl.event("replica %d hung for a while on an idle volume, then died", x.Idx)
 		} else {
 			cl.Kill(x, r.Chance(30))
 		}
@@ -503,6 +535,20 @@ func RunRebuild(s *Scen, r *vk.Rand, a, b int, bin, base string, cycles int) {
 			syscall.Kill(x.cmd.Process.Pid, syscall.SIGCONT)
 			time.Sleep(100 * time.Millisecond)
 			cl.Kill(x, false) // the resumed process lost its connection; the supervisor recycles the pod
+		}
+		if cl.IsWedged() {
+			s.Fail([]string{"C05", "C14"}, "controller-wedged:"+how, fmt.Sprintf("after replica %d was %sed under write load the controller's lock has been held for more than 45 s (rpc deadline 4 s): I/O and management requests hang", x.Idx, how))
+			return
+		}
+		if how == "idlestopkill" {
+			ws = startWriters(cl, r, nw, pause) // the rebuild below runs under writes again
+			if !gone {
+				// the controller has not noticed on its own; with I/O it must (the write path is another detector), but
+				// an idle volume keeps a dead replica listed: nothing would ever rebuild it
+				ws.Stop()
+				s.Fail([]string{"C05"}, "failed-replica-not-detached:idle-volume", fmt.Sprintf("replica %d hung and then died on an idle volume; 30 s later it is still listed: %v", x.Idx, cl.Modes()))
+				return
+			}
 		}
 		if !gone {
 			ws.Stop()
@@ -688,15 +734,68 @@ func RunRebuild(s *Scen, r *vk.Rand, a, b int, bin, base string, cycles int) {
 			idx[i], idx[j] = idx[j], idx[i]
 		}
 		cl.event("full restart in order %v", idx)
+		// in half of the RF-3 cases the replica the controller elects dies the moment it is signalled and stays down:
+		// the other two have registered already and must get the volume up between them
+		killLeader := rf == 3 && (s.Prop == "C09" && (s.Case/100)%2 == 0 || r.Chance(25))
+		var leaderDown *RepProc
+		stopWatch := make(chan struct{})
+		watchDone := make(chan struct{})
+		go func() {
+			defer close(watchDone)
+			for killLeader {
+				select {
+				case <-stopWatch:
+					return
+				default:
+				}
+				if cl.C.TryLock() {
+					cl.C.Unlock()
+					if st := cl.C.VerifState(); st.StartSignalled && st.MaxRevReplica != "" {
+						for _, p := range cl.Reps {
+							if p.IP == st.MaxRevReplica {
+								p.held = true
+								cl.Kill(p, false)
+								leaderDown = p
+								cl.event("the elected replica %d was killed as it was signalled; it stays down", p.Idx)
+							}
+						}
+						return
+					}
+				}
+				time.Sleep(300 * time.Microsecond)
+			}
+		}()
 		for _, i := range idx {
 			mon.restarted(cl.Reps[i].Addr)
 			cl.Reps[i].held = false
 			cl.StartRep(cl.Reps[i])
 			time.Sleep(time.Duration(r.Range(0, 1500)) * time.Millisecond)
 		}
-		if !cl.WaitRW(rf/2+1, 240*time.Second) {
+		ok := cl.WaitRW(rf/2+1, 240*time.Second)
+		close(stopWatch)
+		<-watchDone
+		if leaderDown != nil {
+			s.Res.Count("full_restarts_with_elected_replica_killed_at_signal", 1)
+		}
+		if !ok {
+			// bounded progress: the replicas retry their registration every 5 s, 240 s are 48 such periods. If the
+			// replicas that are supposed to be up have been running steadily, the volume is not coming back.
+			steady := 0
+			for _, p := range cl.Reps {
+				if p != leaderDown && p.Alive() && time.Since(p.startedAt) > 60*time.Second {
+					steady++
+				}
+			}
+			if steady >= rf/2+1 && !cl.IsWedged() {
+				s.Fail([]string{"C09"}, "volume-did-not-come-back-after-full-restart", fmt.Sprintf("all replicas stopped and came back (elected replica killed at its start signal: %v); %d replica processes have been up for more than 60 s, yet 240 s later no quorum is RW: %v", leaderDown != nil, steady, cl.Modes()))
+				return
+			}
 			s.inconclusive("full restart: no quorum RW after 240 s: %v", cl.Modes())
 			return
+		}
+		if leaderDown != nil {
+			leaderDown.held = false
+			cl.StartRep(leaderDown)
 		}
 		if msg, n := cl.ReadAllPositions(256 * 1024); msg != "" {
 			s.Fail([]string{"C09"}, "acknowledged-write-lost-after-full-restart", "after all replicas stopped and came back: "+msg)
@@ -815,4 +914,11 @@ func (s *Scen) compareCountersLocked(when string) {
 			return
 		}
 	}
+}
+
+func tailStr(l []string, n int) []string {
+	if len(l) > n {
+		return l[len(l)-n:]
+	}
+	return l
 }
